@@ -7,6 +7,8 @@ import (
 	"go/types"
 	"strings"
 
+	"golang.org/x/tools/go/packages"
+
 	"j5verif/checker/core"
 	"j5verif/checker/rules"
 )
@@ -111,8 +113,10 @@ func provNumbers(r *core.Run) {
 						}
 					case typ == "internal/j5s/sourcewalk.propertyNode" && field == "number":
 						o := r.Add("R-PROV/V1", name+" | propertyNode.number ← "+core.ExprStr(val), pos, "writer of propertyNode.number")
-						if id, ok := core.Unparen(val).(*ast.Ident); ok && core.FuncName(f2) == "mapProperties" && isCounter(p2.TypesInfo, f2, id) {
+						if id, ok := core.Unparen(val).(*ast.Ident); ok && isMapProperties(r, f2) && isCounter(p2.TypesInfo, f2, id) {
 							o.Auto("the positional counter of mapProperties")
+						} else if why, ok := counterThroughParam(p2, f2, val); ok {
+							o.Auto("%s", why)
 						} else {
 							o.Fail("propertyNode.number is set from %s outside the positional counter of mapProperties", core.ExprStr(val))
 						}
@@ -144,7 +148,70 @@ func provNumbers(r *core.Run) {
 		return
 	}
 	checkCounter(r, mpk.TypesInfo, mfd)
-	r.Floor("R-PROV/V1", 7, "number stores, writers and counter discipline")
+	r.Floor("R-PROV/V1", 6, "two number stores and the key literal in buildProperty, one writer each of PropertyNode.Number and propertyNode.number, the counter discipline")
+}
+
+// counterThroughParam: val is a parameter of the constructor f2, and every
+// call site of f2 in the package passes the positional counter of
+// mapProperties for it.
+func counterThroughParam(pk *packages.Package, f2 *ast.FuncDecl, val ast.Expr) (string, bool) {
+	info := pk.TypesInfo
+	id, ok := core.Unparen(val).(*ast.Ident)
+	if !ok {
+		return "", false
+	}
+	idx, i := -1, 0
+	for _, f := range f2.Type.Params.List {
+		for _, nm := range f.Names {
+			if info.Defs[nm] == info.Uses[id] {
+				idx = i
+			}
+			i++
+		}
+	}
+	if idx < 0 {
+		return "", false
+	}
+	fobj := info.Defs[f2.Name]
+	sites, good := 0, 0
+	core.AllFuncDecls(pk, func(caller *ast.FuncDecl) {
+		if caller.Body == nil {
+			return
+		}
+		ast.Inspect(caller.Body, func(n ast.Node) bool {
+			c, ok := n.(*ast.CallExpr)
+			if !ok || idx >= len(c.Args) {
+				return true
+			}
+			if fn := core.CalleeFunc(info, c); fn == nil || fn.Origin() != fobj {
+				return true
+			}
+			sites++
+			if a, ok := core.Unparen(c.Args[idx]).(*ast.Ident); ok && isMapPropertiesDecl(caller) && isCounter(info, caller, a) {
+				good++
+			}
+			return true
+		})
+	})
+	if sites > 0 && sites == good {
+		return fmt.Sprintf("parameter of %s; all %d call site(s) pass the positional counter of mapProperties", core.FuncName(f2), sites), true
+	}
+	return "", false
+}
+
+// isMapProperties: fd is the numbering function (found as an anchor, so a
+// renamed mapProperties is still it).
+func isMapProperties(r *core.Run, fd *ast.FuncDecl) bool {
+	m, _ := r.P.FuncDecl(walkRel, "mapProperties")
+	return m != nil && m == fd
+}
+
+func isMapPropertiesDecl(fd *ast.FuncDecl) bool {
+	if core.Current == nil {
+		return false
+	}
+	m, _ := core.Current.FuncDecl(walkRel, "mapProperties")
+	return m != nil && m == fd
 }
 
 // ptrArg unwraps gl.Ptr(x) / proto.Int32(x) / int32(x).
@@ -353,7 +420,7 @@ func provEnumNumbers(r *core.Run) {
 	core.AllFuncDecls(pk, func(fd *ast.FuncDecl) {
 		ast.Inspect(fd.Body, func(n ast.Node) bool {
 			c, ok := n.(*ast.CallExpr)
-			if !ok || !strings.HasSuffix(core.CalleeName(info, c), "enumBuilder).addValue") {
+			if !ok || !core.CalleeIs(info, c, convRel, "enumBuilder.addValue") {
 				return true
 			}
 			// the number argument is the int32-typed one
@@ -507,9 +574,17 @@ func provTailAppend(r *core.Run) {
 			if indexed {
 				if k, ok := core.ConstInt(info, as.Lhs[0].(*ast.IndexExpr).Index); ok && k == 0 && sel.Sel.Name == "Value" {
 					f := rules.FactsAt(info, fd.Body, as)
-					if f.True["number == 0"] {
-						o.Auto("replaces the implicit UNSPECIFIED entry, under number == 0")
-						return true
+					// under `<number parameter> == 0`, whatever the parameter is called
+					for _, pf := range fd.Type.Params.List {
+						if b, isB := info.TypeOf(pf.Type).Underlying().(*types.Basic); !isB || b.Info()&types.IsInteger == 0 {
+							continue
+						}
+						for _, nm := range pf.Names {
+							if f.True[nm.Name+" == 0"] || f.True["0 == "+nm.Name] {
+								o.Auto("replaces the implicit UNSPECIFIED entry, under %s == 0", nm.Name)
+								return true
+							}
+						}
 					}
 				}
 				o.Fail("indexed store into a descriptor list")
@@ -590,15 +665,66 @@ func provNames(r *core.Run) {
 		return
 	}
 	o := r.Add("R-PROV/V4", "sourcewalk.propertyNode.accept | default nesting name", fd.Pos(), "default name of inline types")
-	found := ""
+	// the string handed to buildFieldNode as the default nesting name (directly or through a
+	// local): strcase.ToCamel(<the property's schema>.Name)
+	info := pk.TypesInfo
+	var nameArg ast.Expr
 	ast.Inspect(fd.Body, func(n ast.Node) bool {
-		if as, ok := n.(*ast.AssignStmt); ok && len(as.Lhs) == 1 && strings.Contains(strings.ToLower(core.ExprStr(as.Lhs[0])), "nestingname") {
-			found = core.ExprStr(as.Rhs[0])
-			_ = pk
+		c, ok := n.(*ast.CallExpr)
+		if !ok {
+			return true
+		}
+		fn := core.CalleeFunc(info, c)
+		if fn == nil || core.RecordedName(fn) != "buildFieldNode" {
+			return true
+		}
+		sig := fn.Type().(*types.Signature)
+		for i := 0; i < sig.Params().Len() && i < len(c.Args); i++ {
+			if b, ok := sig.Params().At(i).Type().Underlying().(*types.Basic); ok && b.Kind() == types.String {
+				nameArg = c.Args[i]
+			}
 		}
 		return true
 	})
-	if found == "strcase.ToCamel(pn.schema.Name)" {
+	resolve := func(e ast.Expr) ast.Expr {
+		for depth := 0; depth < 4; depth++ {
+			id, ok := core.Unparen(e).(*ast.Ident)
+			if !ok {
+				return e
+			}
+			var def ast.Expr
+			n := 0
+			ast.Inspect(fd.Body, func(nd ast.Node) bool {
+				if as, ok := nd.(*ast.AssignStmt); ok && len(as.Lhs) == len(as.Rhs) {
+					for i, l := range as.Lhs {
+						if li, ok := l.(*ast.Ident); ok && (info.Defs[li] != nil && info.Defs[li] == info.Uses[id] || info.Uses[li] != nil && info.Uses[li] == info.Uses[id]) {
+							n++
+							def = as.Rhs[i]
+						}
+					}
+				}
+				return true
+			})
+			if n != 1 {
+				return e
+			}
+			e = def
+		}
+		return e
+	}
+	okName := false
+	found := "none"
+	if nameArg != nil {
+		e := resolve(nameArg)
+		found = core.ExprStr(e)
+		if c, ok := core.Unparen(e).(*ast.CallExpr); ok && core.CalleeName(info, c) == "github.com/iancoleman/strcase.ToCamel" && len(c.Args) == 1 {
+			a := resolve(c.Args[0])
+			if s, ok := core.Unparen(a).(*ast.SelectorExpr); ok && s.Sel.Name == "Name" && strings.HasSuffix(core.TypeStr(info.TypeOf(resolve(s.X))), "schema_j5pb.ObjectProperty") {
+				okName = true
+			}
+		}
+	}
+	if okName {
 		o.Auto("%s", found)
 	} else {
 		o.Fail("default nesting name is %q, expected strcase.ToCamel(<property name>)", found)
